@@ -147,6 +147,11 @@ SB_INV = [
     "forall(k, range(B0()), blocked_jobs[k] == old(blocked_jobs)[k])",
     "forall(k, range(B0(), len(blocked_jobs)), not empty(blocked_jobs[k].blocked_by) "
     "and exists(m, range(len(A0())), A0()[m] == blocked_jobs[k]))",
+    # a job recorded as blocked in this call is not placed by it: it lies below the cursor, or one of its blockers does
+    "forall(i, range(len(A0())), forall(j, range(i), A0()[i].name != A0()[j].name))",
+    "forall(k, range(B0(), len(blocked_jobs)), forall(m, range(len(_submitted_jobs)), blocked_jobs[k].name != _submitted_jobs[m].name))",
+    "forall(k, range(B0(), len(blocked_jobs)), exists(m, range(len(A0())), A0()[m] == blocked_jobs[k] and (m < CUR() or "
+    "exists(j, range(CUR()), A0()[j].name in blocked_jobs[k].blocked_by))))",
     # C05 (f): every examined job was placed or is blocked
     "forall(m, range(CUR()), exists(k, range(len(_submitted_jobs)), _submitted_jobs[k].name == A0()[m].name) or not empty(A0()[m].blocked_by))",
     "unchanged(Job.blocked_by) and unchanged(Job.name) and unchanged(Job.state)",
@@ -188,11 +193,8 @@ contract("HpcSubmitter._submit_batches", file=F,
              "and empty(jobs_of(self._cluster)[m].blocked_by), "
              "exists(k, range(S0(), len(submitted_jobs)), submitted_jobs[k].name == jobs_of(self._cluster)[m].name)))",
              "unchanged(Job.blocked_by) and unchanged(Job.name) and unchanged(Job.state)",
-         ],
-         trusted_ensures=[
-             # OPEN PROOF OBLIGATION (not yet discharged; bounded native check only): a job recorded as blocked in this call is not
-             # also placed in a batch by it.  Argument: it is either below the cursor for good, or one of its blockers was placed in an
-             # earlier batch and batches are disjoint.
+             # a job recorded as blocked in this call is not also placed in a batch by it (it is below the cursor for good, or one of its
+             # blockers was placed in an earlier batch of the call and batches are disjoint)
              "forall(k, range(B0(), len(blocked_jobs)), forall(m, range(S0(), len(submitted_jobs)), blocked_jobs[k].name != submitted_jobs[m].name))",
          ],
          modifies=["submitted_jobs", "blocked_jobs", "self._batch_index", "JobQueue._num_jobs", "JobQueue._outstanding_jobs",
